@@ -495,7 +495,25 @@ macro_rules! v_seq { ($($t:ident),*) => {$(
         fn show(&self, o: &mut String) { show_list(o, self.iter()) }
     }
 )*}}
-v_seq!(Vec, VecDeque, LinkedList);
+v_seq!(Vec, LinkedList);
+
+/// A `VecDeque` is built so that its ring buffer wraps around (the front half is pushed to the
+/// front, the back half to the back): the logical order is the given one, the storage is not contiguous.
+impl<T: V> V for VecDeque<T> {
+    fn desc(g: bool) -> String { format!("seq({})", T::desc(g)) }
+    fn parse(p: &mut P) -> Option<Self> {
+        let v = p.list(T::parse)?;
+        let n = v.len();
+        let mut d = VecDeque::with_capacity(n.max(2));
+        let mut front: Vec<T> = Vec::new();
+        let mut back: Vec<T> = Vec::new();
+        for (i, x) in v.into_iter().enumerate() { if i < n / 2 { front.push(x) } else { back.push(x) } }
+        for x in back { d.push_back(x) }
+        for x in front.into_iter().rev() { d.push_front(x) }
+        Some(d)
+    }
+    fn show(&self, o: &mut String) { show_list(o, self.iter()) }
+}
 
 impl<T: V> V for Box<[T]> {
     fn desc(g: bool) -> String { format!("seq({})", T::desc(g)) }
